@@ -97,7 +97,7 @@ def chunks {α : Type} (k : Nat) (xs : List α) : List (List α) := chunksAux k 
 
 /-! ### line protocol
 `C14 <op> <n> <k> <items> <choices>`; `op` ∈ map | fmap | coord; `n` window; `k` chunk size of the
-buffered consumer; items `c:a,…`; choices = item indices in completion order.
+buffered consumer (`c` = the consumer is `collect()`); items `c:a,…`; choices = item indices in completion order.
 answer: `<out sequence>;<chunks separated by |>`  -/
 
 def fOf (op : String) : Nat → Option Nat :=
@@ -118,14 +118,18 @@ def handle (args : List String) : String :=
   | [op, n, k, items, choices] =>
     let its := if items == "-" then some [] else (items.splitOn ",").mapM parseItem
     let chs := if choices == "-" then some [] else (choices.splitOn ",").mapM (·.toNat?)
-    match n.toNat?, k.toNat?, its, chs with
+    let kk : Option (Option Nat) := if k == "c" then some none else k.toNat?.map some
+    match n.toNat?, kk, its, chs with
     | some n, some k, some its, some chs =>
       match runChoices (fOf op) n (XSt.init its) chs with
       | none => "bad-choice"
       | some x =>
         if x.st.pending.isEmpty && x.st.inflight.isEmpty then
-          let cs := chunks k x.st.out
-          showSeq x.st.out ++ ";" ++ (if cs.isEmpty then "-" else "|".intercalate (cs.map showSeq))
+          match k with
+          | none => showSeq x.st.out ++ ";*"          -- consumer is `collect()`
+          | some k =>
+            let cs := chunks k x.st.out
+            showSeq x.st.out ++ ";" ++ (if cs.isEmpty then "-" else "|".intercalate (cs.map showSeq))
         else "incomplete"
     | _, _, _, _ => "bad-op"
   | _ => "bad-op"
